@@ -171,11 +171,12 @@ check("C14", "read-only stores and disabled APIs change nothing", "exploration",
       "rapid generator of pre-built roots (healthy/legacy/corrupt) x switch combinations x request mixes; oracle = byte/mtime-exact snapshot of the root and its parent + status class per switch + read sweep",
       "Randomised search over pre-existing directory contents (produced by a writable server, by the legacy-layout generator, or corrupted in six ways), the read-only/mem-over-dir/"
       "switch-off configurations with every combination of the push/delete/blob-delete/referrer switches and a 1 ms GC ticker, and request mixes containing every method on every endpoint; "
-      "after Close the tree (names, modes, sizes, hashes, mtimes of files and directories, including the parent directory) must be identical.",
+      "after Close the tree (names, modes, sizes, hashes, mtimes of files and directories, including the parent directory) must be identical. TestC14Faults (vfs build): one reading file-system call of the first request "
+      "to a read-only directory store or a memory store over the directory fails with EIO; afterwards every pre-existing tag, manifest and blob must be served and the tree must be unchanged.",
       "Trusted: os.Stat mtimes with nanosecond resolution on the scratch file system; read expectations only for healthy and adoptable roots (open finding C14/ro-legacy-regeneration; corrupt "
       "roots answer depending on the store's 1 s re-check window).",
       "DESIGN.md §3 C14",
-      [R("^TestC14$", 4800, 250000)])
+      [R("^TestC14$", 4800, 250000), R("^TestC14Faults$", 3000, 150000, variant="vfs")])
 
 check("C05", "GC never removes retained or recent content", "exploration",
       "rapid state machine building object graphs with aliasing/nesting/referrers + ageing + collections at any step under every policy; oracle = must-keep closure computed on the model from the statement, pull walk of every tag",
